@@ -54,14 +54,39 @@ def parse_direct(hexdgram: str) -> str:
 _NEXT_PORT = [0]
 
 
+_BLOCK = {"base": None, "lock": None}
+_PORT_LO, _PORT_HI, _PORT_BLOCK = 11000, 19000, 40
+
+
+def _claim_block() -> int:
+    """A block of 40 port numbers that belongs to this process alone among all checks running on this machine at the same time: the
+    claim is a socket bound to a name in the abstract unix-socket namespace (exclusive, host-wide, released by the kernel when the
+    process ends - nothing on disk).  Checks running side by side therefore never probe, bind or send to each other's ports."""
+    import os
+    if _BLOCK["base"] is not None:
+        return _BLOCK["base"]
+    nblocks = (_PORT_HI - _PORT_LO) // _PORT_BLOCK
+    first = os.getpid() * 7919 % nblocks
+    for k in range(nblocks):
+        b = (first + k) % nblocks
+        lock = socket.socket(socket.AF_UNIX, socket.SOCK_DGRAM)
+        try:
+            lock.bind("\0aioswitcher-verif-udp-block-%d" % b)
+        except OSError:
+            lock.close()
+            continue
+        _BLOCK["base"], _BLOCK["lock"] = _PORT_LO + b * _PORT_BLOCK, lock
+        return _BLOCK["base"]
+    _BLOCK["base"] = _PORT_LO + first * _PORT_BLOCK        # every block claimed (200 checks at once?): fall back to the old behaviour
+    return _BLOCK["base"]
+
+
 def free_udp_ports(n: int) -> List[int]:
     """n UDP ports nobody holds.  Taken from a block that belongs to this process (below the kernel's ephemeral range, away from the
     protocol's well-known ports), so that checks running side by side do not hand each other's ports out and so that no client
     socket of anybody lands on them by chance."""
-    import os
-    lo, hi = 11000, 19000
-    block = 40
-    base = lo + (os.getpid() * 7919 % ((hi - lo) // block)) * block
+    block = _PORT_BLOCK
+    base = _claim_block()
     ports: List[int] = []
     tries = 0
     while len(ports) < n and tries < 4 * block:
@@ -76,6 +101,47 @@ def free_udp_ports(n: int) -> List[int]:
         ports.append(s.getsockname()[1])
         s.close()
     return ports
+
+
+class WellKnownPorts:
+    """`with WellKnownPorts() as mine:` - the protocol's well-known broadcast ports can be used by one check at a time on a machine;
+    `mine` is False when another check holds them for longer than this one is prepared to wait (the stream is then skipped)"""
+
+    _held = {"n": 0, "lock": None}        # re-entrant within a process
+
+    def __init__(self, wait: float = 45.0):
+        self.wait, self.mine = wait, False
+
+    def __enter__(self) -> bool:
+        import time
+        h = WellKnownPorts._held
+        if h["n"] > 0:
+            h["n"] += 1
+            self.mine = True
+            return True
+        end = time.time() + self.wait
+        while True:
+            lock = socket.socket(socket.AF_UNIX, socket.SOCK_DGRAM)
+            try:
+                lock.bind("\0aioswitcher-verif-well-known-ports")
+                h["n"], h["lock"] = 1, lock
+                self.mine = True
+                return True
+            except OSError:
+                lock.close()
+            if time.time() > end:
+                return False
+            time.sleep(0.25)
+
+    def __exit__(self, *exc):
+        h = WellKnownPorts._held
+        if self.mine:
+            self.mine = False
+            h["n"] -= 1
+            if h["n"] == 0 and h["lock"] is not None:
+                h["lock"].close()
+                h["lock"] = None
+        return False
 
 
 def bindable(port: int) -> bool:
@@ -251,5 +317,11 @@ GIVE_UP_AFTER = 3  # lost barriers after which further sequences are not attempt
 def run_bridge_sequence(nports: int, arrivals, fail_on=(), wellknown=False, restart=False, burst=False) -> str:
     if LOST >= GIVE_UP_AFTER:
         return "0 NOT-RUN(the bridge lost deliveries in 3 earlier sequences)"
+    if wellknown:
+        with WellKnownPorts(wait=20.0) as mine:
+            if not mine:
+                return "0 NOT-RUN(the well-known ports are in use on this machine right now)"
+            shown, errs = H.loop().run_until_complete(_run_bridge_sequence(nports, arrivals, fail_on, wellknown, restart, burst))
+            return shown
     shown, errs = H.loop().run_until_complete(_run_bridge_sequence(nports, arrivals, fail_on, wellknown, restart, burst))
     return shown
